@@ -19,8 +19,18 @@
 // functions: sites are recorded as raw return addresses and symbolised in
 // the parent from the executable's own .symtab.
 //
-// Violation keys: C20/<alloc-site function>/<failure kind>@<where>, never an
-// address, counter or seed.
+// Violation keys: C20/<alloc-site function>/<failure kind>[@<where>], never an
+// address, counter or seed.  <where> (innermost library function) is part of
+// the key only when it is deterministic: a crash in the thread that runs the
+// program, the site of a leaked block.  For crashes in library threads and
+// for hangs it depends on the schedule and is given in the detail text and
+// in the evidence classes instead.
+//
+// Manual reproduction of one finding (prints VIOL lines):
+//   C20_PROG=<program> C20_SITE=<substring of the site chain> [C20_J=<j>] \
+//       .build/asan/h/c20_oom -v
+// e.g. C20_PROG=tran-inproc C20_SITE=nni_dialer_init; or `./vf replay <json>`.
+// `--mode profile` lists every program's sites without failing anything.
 #include "vfh.h"
 
 #include <nng/http.h>
@@ -3153,7 +3163,7 @@ static psite p_sites[C20_MAXSITES];
 static int   p_n;
 static long  p_total; // smallest number of armed allocations of a profile run
 
-static int g_case_timeout = 10;
+static int g_case_timeout = 12;
 
 // every return address seen above the allocator in any profile run (census)
 #define SEEN_SZ 16384
@@ -3372,7 +3382,7 @@ judge(const c20_case *c, const char *casedesc)
 		// policy: a hang is re-run once before it is believed
 		vf_stat("timeouts_rerun", 1);
 		vf_watchdog(180);
-		res = run_child(c, g_case_timeout + 5, true);
+		res = run_child(c, 30, true);
 		if (res != R_TIMEOUT) {
 			vf_stat("timeouts_not_repeated", 1);
 		}
@@ -3400,9 +3410,10 @@ judge(const c20_case *c, const char *casedesc)
 	int         bad   = 0;
 	if (res == R_TIMEOUT) {
 		hang_where(g_stacks, where, sizeof(where));
-		snprintf(detail, sizeof(detail), "no progress for %d s (twice) during %s; site %s",
-		    g_case_timeout + 5, sh->cur_call, sdesc);
-		viol(sfn, "hang", where, casedesc, detail);
+		snprintf(detail, sizeof(detail),
+		    "no progress for %d s and again for 30 s during %s; threads inside the library at: %s; site %s",
+		    g_case_timeout, sh->cur_call, where, sdesc);
+		viol(sfn, "hang", NULL, casedesc, detail);
 		vf_class("%s|%s|hang@%s", pname, sfn, where);
 		return 2;
 	}
